@@ -155,6 +155,31 @@ fn rewrite_function(
   rewrite_expr(state, return_value);
 }
 
+fn rewritten_type_def_mappings(
+  state: &State,
+  mappings: TypeDefinitionMappings,
+) -> TypeDefinitionMappings {
+  match mappings {
+    TypeDefinitionMappings::Struct(types) => {
+      TypeDefinitionMappings::Struct(types.into_iter().map(|t| rewritten_type(state, t)).collect())
+    }
+    TypeDefinitionMappings::Enum(variants) => TypeDefinitionMappings::Enum(
+      variants
+        .into_iter()
+        .map(|v| match v {
+          EnumTypeDefinition::Boxed(types) => {
+            EnumTypeDefinition::Boxed(types.into_iter().map(|t| rewritten_type(state, t)).collect())
+          }
+          EnumTypeDefinition::Unboxed(t) => {
+            EnumTypeDefinition::Unboxed(rewrite_id_type_name(state, t))
+          }
+          EnumTypeDefinition::Int31 => EnumTypeDefinition::Int31,
+        })
+        .collect(),
+    ),
+  }
+}
+
 pub(super) fn deduplicate(
   Sources {
     mut symbol_table,
@@ -165,63 +190,41 @@ pub(super) fn deduplicate(
     mut functions,
   }: Sources,
 ) -> Sources {
-  let mut state = HashMap::new();
-  let mut closure_type_def_mapping = HashMap::<FunctionType, TypeNameId>::new();
-  let mut type_def_mapping = HashMap::<TypeDefinitionMappings, TypeNameId>::new();
-  for closure_type in closure_types {
-    let original_name = closure_type.name;
-    let canonical_name = if let Some(id) = closure_type_def_mapping.get(&closure_type.function_type)
-    {
-      *id
-    } else {
-      closure_type_def_mapping.insert(closure_type.function_type, original_name);
-      original_name
-    };
-    state.insert(original_name, canonical_name);
-  }
-  for type_def in type_definitions {
-    let original_name = type_def.name;
-    let canonical_name = if let Some(id) = type_def_mapping.get(&type_def.mappings) {
-      *id
-    } else {
-      type_def_mapping.insert(type_def.mappings, original_name);
-      original_name
-    };
-    state.insert(original_name, canonical_name);
-  }
+  // Merging types can make further types equal: `(int) -> A` and `(int) -> B` are the same type
+  // only once `A` and `B` have been merged. So the definitions are compared with the names
+  // canonicalized so far, until a round merges nothing more.
+  let mut state = State::new();
+  let (closure_type_def_mapping, type_def_mapping) = loop {
+    let mut next_state = State::new();
+    let mut closure_type_def_mapping = HashMap::<FunctionType, TypeNameId>::new();
+    let mut type_def_mapping = HashMap::<TypeDefinitionMappings, TypeNameId>::new();
+    for closure_type in &closure_types {
+      let original_name = closure_type.name;
+      let mut function_type = closure_type.function_type.clone();
+      rewrite_fn_type(&state, &mut function_type);
+      let canonical_name = *closure_type_def_mapping.entry(function_type).or_insert(original_name);
+      next_state.insert(original_name, canonical_name);
+    }
+    for type_def in &type_definitions {
+      let original_name = type_def.name;
+      let mappings = rewritten_type_def_mappings(&state, type_def.mappings.clone());
+      let canonical_name = *type_def_mapping.entry(mappings).or_insert(original_name);
+      next_state.insert(original_name, canonical_name);
+    }
+    if next_state == state {
+      break (closure_type_def_mapping, type_def_mapping);
+    }
+    state = next_state;
+  };
 
   let closure_types = closure_type_def_mapping
     .into_iter()
-    .map(|(mut t, name)| {
-      rewrite_fn_type(&state, &mut t);
-      ClosureTypeDefinition { name, function_type: t }
-    })
+    .map(|(function_type, name)| ClosureTypeDefinition { name, function_type })
     .sorted_by_key(|d| d.name)
     .collect_vec();
   let type_definitions = type_def_mapping
     .into_iter()
-    .map(|(mappings, name)| TypeDefinition {
-      name,
-      mappings: match mappings {
-        TypeDefinitionMappings::Struct(types) => TypeDefinitionMappings::Struct(
-          types.into_iter().map(|t| rewritten_type(&state, t)).collect(),
-        ),
-        TypeDefinitionMappings::Enum(variants) => TypeDefinitionMappings::Enum(
-          variants
-            .into_iter()
-            .map(|v| match v {
-              EnumTypeDefinition::Boxed(types) => EnumTypeDefinition::Boxed(
-                types.into_iter().map(|t| rewritten_type(&state, t)).collect(),
-              ),
-              EnumTypeDefinition::Unboxed(t) => {
-                EnumTypeDefinition::Unboxed(rewrite_id_type_name(&state, t))
-              }
-              EnumTypeDefinition::Int31 => EnumTypeDefinition::Int31,
-            })
-            .collect(),
-        ),
-      },
-    })
+    .map(|(mappings, name)| TypeDefinition { name, mappings })
     .sorted_by_key(|d| d.name)
     .collect_vec();
   let subtype_remap = symbol_table.remap_subtypes_for_deduplication(&state);
